@@ -1,6 +1,8 @@
 """C01 — MD4/MD5/SHA-0/SHA-1/SHA-2 digests equal the standards for every message and bit length.
 
-run_impl executes the op line on fresh objects of the real crysp classes.  The spec column of the driver is the Lean
+run_impl executes the op line on fresh objects of the real crysp classes (`hash`: one object per message; `hashcalls`:
+ONE object for all the messages and streaming steps of the line, so that whatever a call leaves behind in the object
+- chaining value, padding object, bit counter, pad flag - meets the next call).  The spec column of the driver is the Lean
 formalisation of RFC 1320 / RFC 1321 / FIPS 180-4 evaluated on "the first L bits of M" (and `ERR` when L > 8|M|, which
 the property requires to be refused).  check_impl is the property's own predicate evaluated on the implementation:
 advertised digest length, refusal of L > 8|M|, a secondary oracle (hashlib; two small RFC/FIPS references for MD4 and
@@ -13,8 +15,11 @@ LEAN_PROOFS = ['Proofs.C01']
 GEN_ITEMS = ['Hashes']
 RULE = ('op lines `hash <alg> <msg> <bitlen|None>` over the ten algorithms: every byte length 0..2 blocks+2, every L mod 8 around the '
         'spill boundary (block-1-2*word bytes), block and two-block boundaries, 3-5 blocks seeded, L=None, L=0, L>8|M|, trailing data '
-        'beyond L; `hashseq` lines with a preset bit counter so that the length field needs more than one 32/64-bit word; distinct '
-        'lines; non-trivial = the implementation returned a digest')
+        'beyond L; `hashseq` lines with a preset bit counter so that the length field needs more than one 32/64-bit word; '
+        '`hashcalls` lines: ONE object of the library per line hashes several messages in a row (first messages ending without / with a '
+        'spill block, on a block boundary, over two blocks; after a refused call, after a dangling update(padding=False), after a streamed '
+        'digest, after a preset counter; seeded lives of 4-7 steps), every call compared with the standard\'s digest of that message '
+        'alone; distinct lines; non-trivial = the implementation returned a digest')
 TRUSTED = ['lean/Spec/{Md4,Md5,Sha1,Sha2,MerkleDamgard,Bytes}.lean as renderings of RFC 1320, RFC 1321, FIPS 180-4 (validated in this stream against '
            'hashlib for md5/sha1/sha2 incl. 512/t and against small references for MD4/SHA-0: supporting evidence only)',
            'Model.Padding (owned by C09) and Model.Bits (C07/C08) are shared models tied by their own correspondence streams and by this one']
@@ -24,8 +29,41 @@ ASSUMPTIONS = ['python -O (asserts stripped) is out of scope',
 run_impl = HC.run_impl
 
 
+def calls_of(line):
+    """(alg, steps) of a hashcalls line; the `call` steps as (message, bitlen)"""
+    steps = HC.split_bar(line.split()[1:])
+    return steps[0][0], steps[1:]
+
+
+def check_calls(line, res):
+    """one object, several messages: every call must give what a one-shot call on a NEW object gives for that message
+    (the reference digest for whole-byte lengths, a refusal for L > 8|M|), whatever the object did before"""
+    alg, steps = calls_of(line)
+    calls = [(unhx(st[1]), unoi(st[2])) for st in steps if st[0] == 'call']
+    got = res.split(';') if res else []
+    if len(got) != len(calls): return 'hashcalls %s: %d results for %d calls' % (alg, len(got), len(calls))
+    for i, ((m, L), r) in enumerate(zip(calls, got)):
+        bad = lambda why: 'hashcalls %s call #%d (|M|=%d L=%s) on a used object: %s' % (alg, i, len(m), L, why)
+        if L is not None and L > 8 * len(m):
+            if r != 'ERR': return bad('a bit length beyond the data must be refused')
+            continue
+        if L == 0 and len(m) > 0: continue
+        if r == 'ERR': return bad('unexpected exception')
+        d = unhx(r)
+        if len(d) != HC.outlen(alg): return bad('digest has %d bytes, advertised %d' % (len(d), HC.outlen(alg)))
+        if L is None or L % 8 == 0:
+            exp = HC.reference_digest(alg, m if L is None else m[:L // 8])
+            if exp is not None and exp != d:
+                return bad('got %s, the reference digest of this message is %s' % (d.hex(), exp.hex()))
+            if exp is not None: continue
+        fresh = HC.run_hash([alg, hx(m), oi(L)])
+        if fresh != r: return bad('got %s, a new object gives %s' % (r, fresh))
+    return None
+
+
 def check_impl(line, res):
     t = line.split(); op, a = t[0], t[1:]
+    if op == 'hashcalls': return check_calls(line, res)
     if op != 'hash': return None
     alg, m, L = a[0], unhx(a[1]), unoi(a[2])
     L0 = L
@@ -66,10 +104,67 @@ def boundary_bytes(alg):
     return sorted(x for x in s if x >= 0)
 
 
+def cline(alg, *steps): return 'hashcalls %s | %s' % (alg, ' | '.join(steps))
+def call(m, L=None): return 'call %s %s' % (hx(m), oi(L))
+
+def first_lengths(alg):
+    """byte lengths of a first message that leave the object in every kind of final state: bits in the last block
+    without / with a spill block, exactly whole blocks, more than one block"""
+    B, c = HC.blocklen(alg), HC.cntlen(alg)
+    return [1, 3, B - c - 2, B - c - 1, B - c, B - 1, B, B + 1, 2 * B - c - 1, 2 * B - c, 2 * B]
+
+def reuse_cases(alg, rng, thorough):
+    """ONE object, several messages (hashcalls): whatever a call, a refused call, a dangling streaming update, a
+    finished streaming digest or a preset counter left behind must not show in the next call"""
+    B, c = HC.blocklen(alg), HC.cntlen(alg)
+    seconds = [0, 1, 14, B - c - 1, B - c, B + 1] if thorough else [0, 3, B - c - 1, B + 1]
+    for n1 in first_lengths(alg):
+        for n2 in seconds:
+            yield cline(alg, call(rnd(rng, n1)), call(rnd(rng, n2))), 'reuse:call,call'
+        # ragged first / second lengths
+        m1, m2 = rnd(rng, n1), rnd(rng, rng.randrange(1, B + 2))
+        yield cline(alg, call(m1, 8 * n1 - rng.randrange(1, 8)), call(m2, rng.randrange(1, 8 * len(m2) + 1))), 'reuse:ragged'
+        # the same message twice, then once more after another one
+        yield cline(alg, call(m1), call(m1), call(m2), call(m1)), 'reuse:same message again'
+    for n1 in (0, 1, B - 1, B, B + 5):
+        m1 = rnd(rng, n1)
+        for n2 in ((1, B - c - 1, B) if thorough else (1, B)):
+            # a refused first call (L > 8|M|: raised before or inside the padding), then a good one, then a refused one
+            yield cline(alg, call(m1, 8 * n1 + 1), call(rnd(rng, n2))), 'reuse:after a refused call'
+            yield cline(alg, call(m1, (1 << 40)), call(rnd(rng, n2)), call(m1, 8 * n1 + 8), call(rnd(rng, n2))), 'reuse:after a refused call'
+            # streaming left dangling: update(m, padding=False) with and without buffered rest, then a call
+            yield cline(alg, 'upd ' + hx(m1), call(rnd(rng, n2))), 'reuse:after a dangling update'
+            yield cline(alg, 'upd ' + hx(rnd(rng, B)), 'upd ' + hx(m1), call(rnd(rng, n2)), call(rnd(rng, n2))), 'reuse:after a dangling update'
+            # a finished streaming digest, a preset counter
+            yield cline(alg, 'upd ' + hx(rnd(rng, B)), 'fin ' + hx(m1), call(rnd(rng, n2))), 'reuse:after a streamed digest'
+            yield cline(alg, call(m1), 'preset %d' % (8 * B * rng.randrange(1, 1 << 20)), call(rnd(rng, n2))), 'reuse:after a preset counter'
+            yield cline(alg, call(m1), 'fin ' + hx(rnd(rng, n2)), 'upd ' + hx(m1), call(rnd(rng, n2))), 'reuse:after update on a padded object'
+    # a longer life of one object, seeded
+    for _ in range(4 if not thorough else 40):
+        steps = []
+        for _ in range(rng.randrange(3, 7)):
+            n = rng.choice([rng.randrange(0, 2 * B + 3), rng.choice(first_lengths(alg))])
+            m = rnd(rng, n)
+            k = rng.randrange(8)
+            steps.append(call(m) if k < 4 else call(m, rng.randrange(1, 8 * n + 1)) if k == 4 and n else
+                         call(m, 8 * n + rng.randrange(1, 9)) if k == 5 else 'upd ' + hx(m) if k == 6 else 'fin ' + hx(m))
+        steps.append(call(rnd(rng, rng.randrange(0, B + 2))))
+        yield cline(alg, *steps), 'reuse:seeded life'
+    # the same sequences, state of the padding object after every step (code<->model only)
+    for n1 in (1, B - c - 1, B):
+        m1 = rnd(rng, n1)
+        yield 'hashseqc %s | %s | %s | upd %s | %s' % (alg, call(m1), call(rnd(rng, 3)), hx(m1), call(m1, 8 * n1 + 1)), 'reuse:object state'
+
+
 def cases(tier, rng):
     if tier == 'search':
         while True:
             alg = rng.choice(HC.NAMES); B = HC.blocklen(alg)
+            if rng.randrange(3) == 0:
+                ms = [rnd(rng, rng.choice([rng.randrange(0, 2 * B + 3), rng.choice(first_lengths(alg))])) for _ in range(rng.randrange(2, 5))]
+                first = rng.choice([call(ms[0]), call(ms[0], 8 * len(ms[0]) + 1), 'upd ' + hx(ms[0]), 'fin ' + hx(ms[0])])
+                yield cline(alg, first, *[call(m) for m in ms[1:]]), 'search'
+                continue
             n = rng.choice([rng.randrange(0, 2 * B + 3), rng.randrange(0, 6 * B), rng.choice(boundary_bytes(alg))])
             m = rnd(rng, n)
             L = rng.choice([None, None, rng.randrange(0, 8 * n + 2), max(8 * n - rng.randrange(8), 0)])
@@ -120,10 +215,28 @@ def cases(tier, rng):
                 yield 'hashseq %s | preset %d | fin %s' % (alg, p, hx(rnd(rng, n))), 'counter:multi-word'
                 if thorough or n in (1, B):
                     yield 'hashseq %s | preset %d | upd %s | fin %s' % (alg, p, hx(rnd(rng, B)), hx(rnd(rng, n))), 'counter:multi-word'
+        yield from reuse_cases(alg, rng, thorough)
+
+
+def shrink_calls(line):
+    alg, steps = calls_of(line)
+    # fewer steps first (keeping the last), then shorter messages
+    for i in range(len(steps) - 1):
+        if len(steps) > 2: yield cline(alg, *[' '.join(s) for j, s in enumerate(steps) if j != i])
+    for i, st in enumerate(steps):
+        if st[0] == 'preset': continue
+        m = unhx(st[1])
+        for k in (len(m) // 2, len(m) - 1):
+            if 0 <= k < len(m):
+                st2 = [st[0], hx(m[:k])] + (['None'] if st[0] == 'call' else [])
+                yield cline(alg, *[' '.join(st2 if j == i else s) for j, s in enumerate(steps)])
 
 
 def shrink(line):
     t = line.split()
+    if t[0] == 'hashcalls':
+        yield from shrink_calls(line)
+        return
     if t[0] != 'hash': return
     m = unhx(t[2]); L = unoi(t[3])
     for k in (len(m) // 2, len(m) - 1):
